@@ -150,7 +150,8 @@ def obligations(tier):
     hi = 3 if thorough else 2
     quick = {
         "T1": ["file_array", "dict"],
-        "T4": ["file_array", "dict", "mix_file_first"],
+        "T4": ["file_array", "dict", "mix_file_first", "dict_sub"],
+        "T19": ["dict", "file_array"],
         "T5": ["mix_dict_first"],
         "T6": ["file_array", "dict"],
         "T7": ["file_array", "dict"],
